@@ -423,6 +423,46 @@ impl<'a> G<'a> {
 
     fn stmt_def(&mut self, f: &mut F) {
         let ops: &[AluOp] = if self.prof.all_ops { &ALL_ALU } else { &ALL_ALU[..10] };
+        // ---- shapes that only the non-conforming profile produces
+        if self.rng.chance(self.prof.p_sub_from_const) && !f.is_main {
+            // constant (op) entry-relative value
+            if let Some(t) = self.dst(f, &[]) {
+                let v = self.rng.range(-100, 100) as i32;
+                self.emit(Ins::li(t, v));
+                self.define(f, t);
+                if let Some(rd) = self.dst(f, &[t]) {
+                    let op = *self.rng.pick(&[AluOp::Sub, AluOp::Add, AluOp::Sub, AluOp::Xor]);
+                    let (a, b) = if self.rng.chance(0.7) { (t, SP) } else { (SP, t) };
+                    self.emit(Ins::Alu { op, rd, rs1: a, rs2: b });
+                    self.define(f, rd);
+                }
+            }
+            return;
+        }
+        if self.rng.chance(self.prof.p_div_zero_zero) {
+            if let Some(rd) = self.dst(f, &[]) {
+                let op = *self.rng.pick(&[AluOp::Div, AluOp::Divu, AluOp::Rem, AluOp::Remu, AluOp::Mulh, AluOp::Sltu]);
+                self.emit(Ins::Alu { op, rd, rs1: ZERO, rs2: ZERO });
+                self.define(f, rd);
+            }
+            return;
+        }
+        if self.rng.chance(self.prof.p_stale_slot_after_pop) && !f.is_main && f.no_calls == 0 && f.me + 1 < self.sigs.len() {
+            // push a value, pop the frame extension, call, push again and reload
+            let s = self.src(f);
+            self.emit(Ins::addi(SP, SP, -16));
+            self.emit(Ins::sw(s, 4, SP));
+            self.emit(Ins::addi(SP, SP, 16));
+            let callee = f.me + 1 + self.rng.below(self.sigs.len() - f.me - 1);
+            self.call(f, callee, None);
+            if let Some(rd) = self.dst(f, &[]) {
+                self.emit(Ins::addi(SP, SP, -16));
+                self.emit(Ins::lw(rd, 4, SP));
+                self.emit(Ins::addi(SP, SP, 16));
+                self.define(f, rd);
+            }
+            return;
+        }
         match self.rng.below(10) {
             0..=2 => {
                 if let Some(rd) = self.dst(f, &[]) {
